@@ -1,6 +1,4 @@
 pub mod report;
 pub mod enumerate;
 pub mod der;
-pub mod sched;
 pub mod signer;
-pub mod mutate;
